@@ -267,6 +267,37 @@ def main(argv):
             on = [(i[0], i[1]) for i in read_items(src, ignore_comments=False, include_omp_conditional_lines=True)]
             if on != [("comment", d), ("stmt", "x=1")]:
                 fail("reader#omp.directive_stays_comment", dict(source=src), dict(items=on))
+        # the option holds for every line the reader delivers: sentinel lines inside an included file too
+        import tempfile
+        from fparser.common.readfortran import FortranFileReader, FortranStringReader
+        from fparser.common.sourceinfo import FortranFormat
+        for free in (True, False):
+            pad = "" if free else "      "
+            inc_lines = ["!$ k = n + 2", "!$ m = k &" if free else "!$    m = k", "!$ & + 1" if free else "!$   & + 1", "j = 3" if free else "      j = 3"]
+            if not free:
+                inc_lines[0] = "!$    k = n + 2"
+            plain = [("k=n+2", "k = n + 2"), ("m=k+1", None), ("j=3", "j = 3")]
+            with tempfile.TemporaryDirectory() as d:
+                name = "omp.inc" if free else "omp.f"
+                open(os.path.join(d, name), "w").write("\n".join(inc_lines) + "\n")
+                main = pad + "i = 1\n" + pad + "include '%s'\n" % name + pad + "z = 0\n"
+                open(os.path.join(d, "main.f90" if free else "main.f"), "w").write(main)
+                for kind in ("string", "file"):
+                    for on in (True, False):
+                        cases += 1
+                        try:
+                            if kind == "string":
+                                rd = FortranStringReader(main, include_dirs=[d], ignore_comments=True, include_omp_conditional_lines=on)
+                                rd.set_format(FortranFormat(free, False))
+                            else:
+                                rd = FortranFileReader(os.path.join(d, "main.f90" if free else "main.f"), include_dirs=[d], ignore_comments=True, include_omp_conditional_lines=on)
+                            got = ["".join(it.line.split()) for it in rd]
+                        except BaseException as e:  # noqa
+                            got = ["%s: %s" % (type(e).__name__, str(e)[:100])]
+                        want = ["i=1"] + ([p[0] for p in plain] if on else ["j=3"]) + ["z=0"]
+                        if got != want:
+                            fail("reader#omp.option_holds_inside_included_files", dict(source=main, include="\n".join(inc_lines), form="free" if free else "fixed", reader=kind, enabled=on),
+                                 dict(items=got, expected=want))
     # ---------------------------------------------------------------- fixed form (C05)
     if "C05" in only:
         from fparser.common.sourceinfo import get_source_info_str
